@@ -45,13 +45,25 @@ ASSUMPTIONS = [
 # ----------------------------------------------------------------------------- R1
 
 
+def _resolve1(fn, e: ast.AST) -> ast.AST:
+    """follow a plain name to its single local definition"""
+    for _ in range(3):
+        if isinstance(e, ast.Name):
+            vals = [v for v in all_def_values(fn, e.id) if v is not None]
+            if len(vals) == 1 and len(all_def_values(fn, e.id)) == 1:
+                e = vals[0]
+                continue
+        break
+    return e
+
+
 def _link_function(prog) -> tuple[FuncInfo, ast.Compare]:
     for fi in prog.funcs:
         if not fi.module.name.startswith("yaw.correlation"):
             continue
         for x in walk_no_nested(fi.node):
             if isinstance(x, ast.Compare) and len(x.ops) == 1 and isinstance(x.ops[0], (ast.Lt, ast.LtE, ast.Gt, ast.GtE)):
-                sides = [x.left, x.comparators[0]]
+                sides = [_resolve1(fi.node, x.left), _resolve1(fi.node, x.comparators[0])]
                 if not any(isinstance(s_, ast.BinOp) and isinstance(s_.op, ast.Add) for s_ in sides):
                     continue  # the link threshold is a sum of radii and angle
                 if any(depends_on(fi.node, s, lambda y: isinstance(y, ast.Call) and isinstance(y.func, ast.Attribute) and y.func.attr == "distance") for s in sides) and any(
@@ -117,7 +129,7 @@ def rule_r1(prog, res) -> None:
     res.touch(fi)
     fn = fi.node
     op = cmp_.ops[0]
-    left, right = cmp_.left, cmp_.comparators[0]
+    left, right = _resolve1(fn, cmp_.left), _resolve1(fn, cmp_.comparators[0])
     dist_left = depends_on(fn, left, lambda y: isinstance(y, ast.Call) and isinstance(y.func, ast.Attribute) and y.func.attr == "distance")
     if not dist_left:
         left, right = right, left
